@@ -6,7 +6,9 @@ From JV Require Import Lib.Base Model.Graph Spec.GraphSpec Model.LinkOrder Spec.
 
 Inductive case :=
 | GraphCase (c_edges : list edge) (c_obs : topo_out)
-| LinkCase (c_decls : list decl) (c_links : list link) (c_obs : outcome * list event).
+| LinkCase (c_decls : list decl) (c_links : list link) (c_obs : outcome * list event)
+(* the caller catches the ValueError of a rejected link and goes on adding links; c_rej = numbers of the rejected calls *)
+| LinkContCase (c_decls : list decl) (c_links : list link) (c_rej : list nat) (c_obs : outcome * list event).
 
 Definition out_eqb (a b : topo_out) : bool :=
   match a, b with
@@ -43,6 +45,12 @@ Definition judge1_with (fx : fixes) (c : case) : verdict :=
       {| v_model := wf_links ls && obs_eqb (run fx ds ls) obs;
          v_class := link_class fx ds ls;
          v_spec := link_spec_ok ds ls obs |}
+  | LinkContCase ds ls rej obs =>
+      let m := run_cont fx ds ls in
+      {| v_model := wf_links ls && list_eqb Nat.eqb (fst m) rej && obs_eqb (snd m) obs;
+         (* the guard is evaluated on the links the model accepts: only those are in the parser *)
+         v_class := link_class fx ds (fst (add_links_cont fx (components ds) ls));
+         v_spec := link_spec_cont_ok ds ls rej obs |}
   end.
 
 (* the pinned tree *)
